@@ -50,9 +50,16 @@ static struct hwloc_tma TMA;
  * packages or NUMA nodes, a user memory attribute, then a restrict that removes the last PU): the documented precondition
  * for readers is then hwloc_topology_refresh(), which is called on the shared copy only - the original is left with its
  * lazily invalidated caches, so the refresh of the copy has real work to do */
+/* variants 2..4: the same, on a topology loaded with NO_DISTANCES / NO_MEMATTRS / NO_CPUKINDS: the flag stops the backends,
+ * the annotations added by the user afterwards are live all the same and hwloc_topology_refresh() must refresh them
+ * (seeded change C17-refresh-wrong-flag: the guard of one refresh step tested the flag of another) */
+#define NVARIANTS 5
+static const unsigned long VFLAGS[NVARIANTS] = { 0, 0, HWLOC_TOPOLOGY_FLAG_NO_DISTANCES, HWLOC_TOPOLOGY_FLAG_NO_MEMATTRS, HWLOC_TOPOLOGY_FLAG_NO_CPUKINDS };
+static const char *VNAME[NVARIANTS] = { "", " (annotated, restricted, refreshed)", " (NO_DISTANCES, annotated, restricted, refreshed)", " (NO_MEMATTRS, annotated, restricted, refreshed)", " (NO_CPUKINDS, annotated, restricted, refreshed)" };
 static hwloc_topology_t load_variant(const struct usrc *s, int variant)
 {
   struct ucfg c; ucfg_keepall(&c); hwloc_topology_t t;
+  c.flags |= VFLAGS[variant];
   if (univ_load(&t, s, &c)) return NULL;
   if (!variant) return t;
   unsigned npu = hwloc_get_nbobjs_by_type(t, HWLOC_OBJ_PU);
@@ -73,6 +80,22 @@ static hwloc_topology_t load_variant(const struct usrc *s, int variant)
   hwloc_memattr_id_t id;
   if (hwloc_memattr_register(t, "c17attr", HWLOC_MEMATTR_FLAG_HIGHER_FIRST, &id) == 0)
     for (unsigned i = 0; i < hwloc_get_nbobjs_by_type(t, HWLOC_OBJ_NUMANODE); i++) hwloc_memattr_set_value(t, id, hwloc_get_obj_by_type(t, HWLOC_OBJ_NUMANODE, i), NULL, 0, 100 + i);
+  /* an attribute with initiators: one value per (node, PU pair) - the restrict below empties the last initiator's cpuset partly */
+  if (hwloc_memattr_register(t, "c17bw", HWLOC_MEMATTR_FLAG_HIGHER_FIRST | HWLOC_MEMATTR_FLAG_NEED_INITIATOR, &id) == 0) {
+    hwloc_obj_t node = hwloc_get_obj_by_type(t, HWLOC_OBJ_NUMANODE, 0);
+    for (unsigned i = 0; node && i + 1 < npu && i < 8; i += 2) {
+      struct hwloc_location loc; hwloc_bitmap_t cs = hwloc_bitmap_alloc();
+      hwloc_bitmap_set(cs, hwloc_get_obj_by_type(t, HWLOC_OBJ_PU, i)->os_index); hwloc_bitmap_set(cs, hwloc_get_obj_by_type(t, HWLOC_OBJ_PU, i + 1)->os_index);
+      loc.type = HWLOC_LOCATION_TYPE_CPUSET; loc.location.cpuset = cs;
+      hwloc_memattr_set_value(t, id, node, &loc, 0, 10 + i);
+      hwloc_bitmap_free(cs);
+    }
+  }
+  /* two CPU kinds over the first PUs */
+  { hwloc_bitmap_t k = hwloc_bitmap_alloc(); struct hwloc_info_s info = { (char *)"c17kind", (char *)"a" };
+    hwloc_bitmap_set(k, hwloc_get_obj_by_type(t, HWLOC_OBJ_PU, 0)->os_index); hwloc_cpukinds_register(t, k, 1, &(struct hwloc_infos_s){ &info, 1, 1 }, 0);
+    hwloc_bitmap_zero(k); hwloc_bitmap_set(k, hwloc_get_obj_by_type(t, HWLOC_OBJ_PU, npu - 1)->os_index); hwloc_bitmap_set(k, hwloc_get_obj_by_type(t, HWLOC_OBJ_PU, 1)->os_index);
+    hwloc_cpukinds_register(t, k, 2, NULL, 0); hwloc_bitmap_free(k); }
   /* remove the last PU: every matrix over the PUs loses an object */
   hwloc_bitmap_t keep = hwloc_bitmap_dup(hwloc_topology_get_topology_cpuset(t)); hwloc_bitmap_clr(keep, (unsigned)hwloc_bitmap_last(keep));
   hwloc_topology_restrict(t, keep, 0); hwloc_bitmap_free(keep);
@@ -103,7 +126,7 @@ static void rd_after(void *arg)
     if (strcmp(got, want)) { size_t d = 0; while (got[d] && got[d] == want[d]) d++; mc_violation("c17.readers.result", "%s :: thread %d (battery group %d) sees '%.60s' where the single-threaded run sees '%.60s' (offset %zu)", CASE, i, r->group[i], got + d, want + d, d); }
   }
 }
-static const char *GN[BAT_NGROUPS] = { "traversal", "print", "helpers", "distances", "memattrs", "cpukinds", "sets", "xml", "synthetic" };
+static const char *GN[BAT_NGROUPS] = { "traversal", "print", "helpers", "distances", "memattrs", "cpukinds", "sets", "xml", "synthetic", "lookups" };
 
 static void stage_readers(struct mcs_stats *tot)
 {
@@ -114,7 +137,8 @@ static void stage_readers(struct mcs_stats *tot)
     struct usrc s; memset(&s, 0, sizeof(s)); static char path[600];
     if (SRC[si][0] == '@') { snprintf(path, sizeof(path), "%s/harness/fixtures/%s", univ_verif(), SRC[si] + 1); s.kind = USRC_XMLFILE; s.text = path; } else { s.kind = USRC_SYNTHETIC; s.text = (char *)SRC[si]; }
     s.name = (char *)SRC[si];
-    for (int variant = 0; variant < 2; variant++) {
+    for (int variant = 0; variant < NVARIANTS; variant++) {
+    if (variant >= 2 && !MC.thorough && si != 0) continue;   /* quick: the flag variants on the richest source only */
     struct rd r; memset(&r, 0, sizeof(r)); r.nthreads = T;
     r.t = shared_from(&s, variant);
     if (!r.t) { if (!variant) mc_note("source %s does not load", SRC[si]); continue; }
@@ -134,7 +158,7 @@ static void stage_readers(struct mcs_stats *tot)
     int g[MCS_MAXT] = {0};
     for (g[0] = 0; g[0] < BAT_NGROUPS; g[0]++) for (g[1] = g[0]; g[1] < BAT_NGROUPS; g[1]++) for (g[2] = (T > 2 ? g[1] : 0); g[2] < (T > 2 ? BAT_NGROUPS : 1); g[2]++, idx++) {
       if (!mc_mine(idx) || mc_deadline()) continue;
-      snprintf(CASE, sizeof(CASE), "readers of %s%s: %s | %s%s%s", SRC[si], variant ? " (annotated, restricted, refreshed)" : "", GN[g[0]], GN[g[1]], T > 2 ? " | " : "", T > 2 ? GN[g[2]] : "");
+      snprintf(CASE, sizeof(CASE), "readers of %s%s: %s | %s%s%s", SRC[si], VNAME[variant], GN[g[0]], GN[g[1]], T > 2 ? " | " : "", T > 2 ? GN[g[2]] : "");
       if (!mc_case("%s", CASE)) continue;
       for (int i = 0; i < T; i++) r.group[i] = g[i];
       struct mcs_cfg cfg = { T, rd_body, rd_before, rd_after, &r, MC.thorough ? 3 : 2, 0, MC.thorough ? 600.0 : 150.0 };
@@ -158,8 +182,10 @@ static void stage_readers(struct mcs_stats *tot)
 }
 
 /* ------------------------------------------------------------------ independent topologies */
-enum { H_INIT_DESTROY, H_SYNTHETIC, H_MODIFY_EXPORT, H_XML, H_NHIST };
-static const char *HN[H_NHIST] = { "init;destroy", "init;synthetic;load;export-synthetic;destroy", "init;synthetic;load;insert-misc;restrict;refresh;export-xml;destroy", "init;xmlbuffer;load;distances;export-xml;destroy" };
+enum { H_INIT_DESTROY, H_SYNTHETIC, H_MODIFY_EXPORT, H_XML, H_DIFF, H_ANNOTATE, H_NHIST };
+static const char *HN[H_NHIST] = { "init;destroy", "init;synthetic;load;export-synthetic;destroy", "init;synthetic;load;insert-misc;restrict;refresh;export-xml;destroy", "init;xmlbuffer;load;distances;export-xml;destroy",
+  "init;synthetic;load;dup;insert-misc;diff-build(too complex);diff-export(fails);dup;change-info;diff-build;diff-export;diff-load;diff-apply;destroy x3",
+  "init;synthetic;load;memattr;cpukind;distances+group;allow;dup;export-xml;destroy x2" };
 struct ind { int hist[MCS_MAXT]; struct sb dig[MCS_MAXT]; char *ref[H_NHIST]; char *xml; int xmllen; int nthreads; };
 
 static void history(int h, struct sb *d, const struct ind *in)
@@ -167,6 +193,50 @@ static void history(int h, struct sb *d, const struct ind *in)
   hwloc_topology_t t;
   if (hwloc_topology_init(&t) < 0) { sb_puts(d, "init-failed"); return; }
   if (h == H_INIT_DESTROY) { sb_puts(d, "ok"); hwloc_topology_destroy(t); return; }
+  if (h == H_DIFF) {
+    hwloc_topology_t t2 = NULL, t3 = NULL; hwloc_topology_diff_t diff = NULL; char *x = NULL; int l = 0;
+    if (hwloc_topology_set_synthetic(t, "numa:2 pu:2") < 0 || hwloc_topology_load(t) < 0) { sb_puts(d, "load-failed"); hwloc_topology_destroy(t); return; }
+    hwloc_obj_add_info(hwloc_get_root_obj(t), "c17", "one");
+    if (hwloc_topology_dup(&t2, t) < 0) sb_puts(d, "dup-failed");
+    else {
+      hwloc_topology_insert_misc_object(t2, hwloc_get_root_obj(t2), "c17");
+      int rc = hwloc_topology_diff_build(t, t2, 0, &diff); sb_printf(d, "build=%d;", rc);
+      rc = hwloc_topology_diff_export_xmlbuffer(diff, "ref", &x, &l); sb_printf(d, "export-too-complex=%d;", rc);
+      if (rc == 0) free(x);
+      hwloc_topology_diff_destroy(diff); diff = NULL;
+      hwloc_topology_destroy(t2);
+    }
+    if (hwloc_topology_dup(&t3, t) < 0) sb_puts(d, "dup2-failed");
+    else {
+      hwloc_modify_infos(&hwloc_get_root_obj(t3)->infos, HWLOC_MODIFY_INFOS_OP_REPLACE, "c17", "two");
+      int rc = hwloc_topology_diff_build(t, t3, 0, &diff); sb_printf(d, "build2=%d;", rc);
+      rc = hwloc_topology_diff_export_xmlbuffer(diff, "ref", &x, &l); sb_printf(d, "export=%d;", rc);
+      hwloc_topology_diff_destroy(diff); diff = NULL;
+      if (rc == 0) {
+        char *ref = NULL; rc = hwloc_topology_diff_load_xmlbuffer(x, l, &diff, &ref); sb_printf(d, "load=%d ref=%s;", rc, ref ? ref : "(null)"); free(ref); free(x);
+        if (rc == 0) { rc = hwloc_topology_diff_apply(t, diff, 0); const char *v = hwloc_obj_get_info_by_name(hwloc_get_root_obj(t), "c17"); sb_printf(d, "apply=%d value=%s;", rc, v ? v : "(null)"); hwloc_topology_diff_destroy(diff); }
+      }
+      hwloc_topology_destroy(t3);
+    }
+    /* the components a new topology needs must still be there */
+    { hwloc_topology_t t4; if (hwloc_topology_init(&t4) == 0) { int rc = hwloc_topology_set_synthetic(t4, "pu:2"); if (rc == 0) rc = hwloc_topology_load(t4); sb_printf(d, "again=%d;", rc); hwloc_topology_destroy(t4); } }
+    hwloc_topology_destroy(t); return;
+  }
+  if (h == H_ANNOTATE) {
+    if (hwloc_topology_set_synthetic(t, "numa:4 pu:2") < 0 || hwloc_topology_set_flags(t, HWLOC_TOPOLOGY_FLAG_INCLUDE_DISALLOWED) < 0 || hwloc_topology_load(t) < 0) { sb_puts(d, "load-failed"); hwloc_topology_destroy(t); return; }
+    hwloc_memattr_id_t id; int rc = hwloc_memattr_register(t, "c17attr", HWLOC_MEMATTR_FLAG_LOWER_FIRST, &id);
+    if (rc == 0) for (unsigned i = 0; i < 4; i++) hwloc_memattr_set_value(t, id, hwloc_get_obj_by_type(t, HWLOC_OBJ_NUMANODE, i), NULL, 0, 7 - i);
+    hwloc_bitmap_t k = hwloc_bitmap_alloc(); hwloc_bitmap_set_range(k, 0, 3); rc = hwloc_cpukinds_register(t, k, 3, NULL, 0); sb_printf(d, "kind=%d;", rc);
+    hwloc_obj_t objs[4]; hwloc_uint64_t vals[16];
+    for (unsigned i = 0; i < 4; i++) objs[i] = hwloc_get_obj_by_type(t, HWLOC_OBJ_NUMANODE, i);
+    for (unsigned i = 0; i < 16; i++) vals[i] = (i / 4 == i % 4) ? 10 : ((i / 4) / 2 == (i % 4) / 2 ? 20 : 40);
+    hwloc_distances_add_handle_t hd = hwloc_distances_add_create(t, "c17lat", HWLOC_DISTANCES_KIND_FROM_USER | HWLOC_DISTANCES_KIND_VALUE_LATENCY, 0);
+    if (hd && hwloc_distances_add_values(t, hd, 4, objs, vals, 0) == 0) { rc = hwloc_distances_add_commit(t, hd, HWLOC_DISTANCES_ADD_FLAG_GROUP); sb_printf(d, "commit=%d groups=%d;", rc, hwloc_get_nbobjs_by_type(t, HWLOC_OBJ_GROUP)); }
+    hwloc_bitmap_zero(k); hwloc_bitmap_set_range(k, 0, 5); rc = hwloc_topology_allow(t, k, NULL, HWLOC_ALLOW_FLAG_CUSTOM); sb_printf(d, "allow=%d;", rc); hwloc_bitmap_free(k);
+    hwloc_topology_t t2 = NULL;
+    if (hwloc_topology_dup(&t2, t) == 0) { char *x; int l; if (hwloc_topology_export_xmlbuffer(t2, &x, &l, 0) == 0) { sb_puts(d, x); hwloc_free_xmlbuffer(t2, x); } else sb_puts(d, "export-failed"); hwloc_topology_destroy(t2); } else sb_puts(d, "dup-failed");
+    hwloc_topology_destroy(t); return;
+  }
   if (h == H_XML) { if (hwloc_topology_set_xmlbuffer(t, in->xml, in->xmllen) < 0) sb_puts(d, "set-xml-failed"); }
   else if (hwloc_topology_set_synthetic(t, h == H_SYNTHETIC ? "package:2 core:2 pu:2" : "numa:2 l2:2 pu:2") < 0) sb_puts(d, "set-synthetic-failed");
   if (hwloc_topology_load(t) < 0) { sb_puts(d, "load-failed"); hwloc_topology_destroy(t); return; }
@@ -191,6 +261,11 @@ static void ind_after(void *arg)
     const char *got = in->dig[i].s ? in->dig[i].s : "", *want = in->ref[in->hist[i]];
     if (strcmp(got, want)) { size_t d = 0; while (got[d] && got[d] == want[d]) d++; mc_violation("c17.independent.result", "%s :: thread %d (%s) ends with '%.60s' where the single-threaded run gives '%.60s' (offset %zu)", CASE, i, HN[in->hist[i]], got + d, want + d, d); }
   }
+  /* every topology has been destroyed: the process-wide component registry must be released (its user count is a static of
+   * components.c, found through the symbol table; a change that renames it makes this clause vacuous, which is counted) */
+  { static unsigned *users; static int looked; if (!looked) { looked = 1; users = mcs_symbol_addr("hwloc_components_users"); }
+    if (!users) mc_count("registry_refcount_symbol_missing", 1);
+    else { mc_count("registry_refcount_checked", 1); if (*users != 0) mc_violation("c17.independent.registry-refcount", "%s :: every topology is destroyed and hwloc_components_users is %u", CASE, *users); } }
 }
 
 static void stage_independent(struct mcs_stats *tot)
